@@ -357,7 +357,11 @@ class SimThread:
         self._target = target
         self._args = args
         self._kwargs = kwargs or {}
-        self._rec = k.spawn(self._run_wrapper, name=None, daemon=bool(daemon))
+        if type(self).run is SimThread.run and target is not None:
+            # call the target directly: no simulator frames (and their locals) between threading's and the host's
+            self._rec = k.spawn(target, name=None, args=tuple(args), kwargs=dict(kwargs or {}), daemon=bool(daemon))
+        else:
+            self._rec = k.spawn(self._run_wrapper, name=None, daemon=bool(daemon))
         if name is not None:
             self._rec.name = str(name)
         self._rec.api = self
